@@ -1440,7 +1440,9 @@ class Harden(EnvironmentFilter):
 
             new = interaction.copy()
 
-            if not context_materialized and is_dense_context:
+            if new.get('context') is None:
+                pass #an interaction without a context has nothing to harden (the first one had a lazy context)
+            elif not context_materialized and is_dense_context:
                 new['context'] = list(new['context'])
             elif not context_materialized and is_sparse_context:
                 new['context'] = new['context'].copy()
